@@ -119,6 +119,9 @@ pub const PAYLOADS: &[&str] = &[
     "pv := \"s\"\npw := pv\npv += \"t\"\nprint(pw)\nprint(pv)\n",
     "pv := {\"l\": [1]}\npw := pv.l\npv.l += [2]\nprint(pw)\nprint(pv)\n",
     "fn pf(a) {\na += [9]\nreturn a\n}\npv := [1]\nprint(pf(pv))\nprint(pv)\n",
+    "pv := \"x\"\nprint($\"\\\"${pv}\\\": \\n${pv + pv}\\x21 é${pv}\")\n",
+    "for [pi, pe] in 3 .. 5 {\nprint([pi, pe])\n}\nfor pe in -2 .. 0 {\nprint(pe)\n}\n",
+    "print(false && print(1) == null)\nprint(true || print(2) == null)\n",
 ];
 
 fn rename(p: &str) -> String {
@@ -230,15 +233,15 @@ impl Check for C01 {
 
     fn run(&self, ctx: &mut Ctx) -> Result<(), MachineryError> {
         let thorough = ctx.tier == Tier::Thorough;
-        let seq_len = ctx.tier.pick(3usize, 4usize);
+        let seq_len = ctx.tier.pick(3usize, 5usize);
         let nc = CONTEXTS.len();
         let np = PAYLOADS.len();
         ctx.rule = format!(
-            "(1) every chain of depth 0..2{} over {} construct contexts around every one of {} payload fragments, with and without a same-named variable declared before the outermost construct and read after it; every depth-0/1 chain around every ordered pair of payloads (second payload renamed) placed both inside, or one inside and one after{}; (3) {} evaluation-order programs: every construct with several operand positions (operators, literals, spreads, calls with the callee as a position, indexing, every assignment form, slots, patterns, conditions of if / else-if / while), each position printing its number and then succeeding or failing, all 2^k assignments; (2) breadth-first over all statement sequences of length <= {} from {} statements on a, b, c with dead-state pruning; oracle: reference interpreter (stdout, termination class); non-trivial = all",
-            if thorough { " (depth 3 over a core subset)" } else { "" },
+            "(1) every chain of depth 0..2{} over {} construct contexts around every one of {} payload fragments, with and without a same-named variable declared before the outermost construct and read after it; every depth-0/1 chain around every ordered pair of payloads (second payload renamed) placed both inside, or one inside and one after{}; (4) each of the repository's test scripts placed inside each of the construct contexts; (3) {} evaluation-order programs: every construct with several operand positions (operators, literals, spreads, calls with the callee as a position, indexing, every assignment form, slots, patterns, conditions of if / else-if / while), each position printing its number and then succeeding or failing, all 2^k assignments; (2) breadth-first over all statement sequences of length <= {} from {} statements on a, b, c with dead-state pruning; oracle: reference interpreter (stdout, termination class); non-trivial = all",
+            if thorough { " (thorough: depth 3 as well)" } else { "" },
             nc,
             np,
-            if thorough { ", every depth-2 chain around every pair on a payload subset" } else { "" },
+            if thorough { ", every depth-2 chain around every ordered pair" } else { "" },
             super::evalorder::cases(4).len(),
             seq_len,
             STMTS.len()
@@ -292,11 +295,10 @@ impl Check for C01 {
             }
         }
         if thorough {
-            // depth 3 over a core subset of contexts, single payloads
-            let core = [1usize, 2, 7, 8, 10, 12, 16, 17, 19, 22];
-            for a in core {
-                for b in core {
-                    for c in core {
+            // depth 3 over all contexts, single payloads
+            'd3: for a in 1..nc {
+                for b in 1..nc {
+                    for c in 1..nc {
                         for (pi, p) in PAYLOADS.iter().enumerate() {
                             cases.push(Case::new(format!("{}print(\"end\")\n", fill(&[a, b, c], p)), 3, format!("chain {:?} payload {}", [a, b, c], pi)));
                             n_programs += 1;
@@ -304,14 +306,16 @@ impl Check for C01 {
                     }
                     if cases.len() >= 60_000 {
                         flush(ctx, &mut cases, self)?;
+                        if ctx.over_cap() {
+                            break 'd3;
+                        }
                     }
                 }
             }
-            // depth-2 chains around pairs from a payload subset
-            let sub: Vec<usize> = (0..np).filter(|i| i % 3 == 0).collect();
+            // depth-2 chains around every ordered pair of payloads
             for ch in chains.iter().filter(|c| c.len() == 2) {
-                for &i in &sub {
-                    for &j in &sub {
+                for i in 0..np {
+                    for j in 0..np {
                         cases.push(Case::new(format!("{}print(\"end\")\n", fill(ch, &format!("{}{}", PAYLOADS[i], rename(PAYLOADS[j])))), 2, format!("chain {:?} payloads {} then {} inside", ch, i, j)));
                         n_programs += 1;
                     }
@@ -325,6 +329,18 @@ impl Check for C01 {
             }
         }
         flush(ctx, &mut cases, self)?;
+        // (4) whole programs compose: every test script of the repository inside every context
+        let tests = crate::repo_tests::load(&format!("{}/tests/stdout", crate::subject::repo()));
+        let mut n_wrapped = 0u64;
+        for t in &tests {
+            let body = if t.src.ends_with('\n') { t.src.clone() } else { format!("{}\n", t.src) };
+            for (ci, (cn, ctxt)) in CONTEXTS.iter().enumerate().skip(1) {
+                cases.push(Case::new(format!("{}print(\"end\")\n", ctxt.replace('@', &body)), 5, format!("repo test {}::{} inside context {} ({})", t.file, t.name, ci, cn)));
+                n_wrapped += 1;
+            }
+        }
+        flush(ctx, &mut cases, self)?;
+        ctx.extra.insert("repository_scripts_in_contexts".into(), json!(n_wrapped));
         // (3) evaluation order of the operand positions of every construct
         let eo = super::evalorder::cases(4);
         ctx.judge(eo, |c, r, o| self.oracle(c, r, o))?;
